@@ -78,7 +78,7 @@ func genEnvLocks() (string, error) {
 				if id, ok := se.X.(*ast.Ident); !ok || id.Name != recv {
 					return "", false
 				}
-				if se.Sel.Name == "values" || se.Sel.Name == "types" {
+				if se.Sel.Name == "values" || se.Sel.Name == "types" || se.Sel.Name == "externalLookup" {
 					return se.Sel.Name, true
 				}
 				return "", false
